@@ -5,7 +5,7 @@ import hashlib
 from sa.loader import AnalysisError, norm, walk_local
 from sa.cfg import cfg_of
 from sa.spec import schema_spec as spec
-from .common import true_facts, analysis, names_in
+from .common import true_facts, analysis, names_in, eq_texts, ne_texts
 
 PROP = "C14"
 TECHNIQUE = "constant folding of the advertised algorithm set and the Java-name mapping; CFG dominance of the unknown-algorithm guard over all hashing; def-use of the hashed bytes (UTF-8); frame of the Rabin routine (seed constant, 8-byte little-endian hex rendering, no module-level state)"
@@ -46,9 +46,9 @@ def run(ctx):
     maps = [n for n in walk_local(f.node) if isinstance(n, ast.Assign) and norm(n) == f"{alg_p} = JAVA_FINGERPRINT_MAPPING.get({alg_p}, {alg_p})"]
     ok = len(maps) == 1 and all(cfg.dominates(cfg.node_of(maps[0]), cfg.node_of(h)) for h in hashing if norm(h.func) == "hashlib.new")
     ctx.check("C14.R2", "the mapping is applied to the algorithm name before hashlib.new", ok, f.where(maps[0]) if maps else f.where(), f"fingerprint: {[norm(m) for m in maps]}", "'MD5' / 'SHA-256' would reach hashlib under a spelling it does not guarantee")
-    rab = [t for t in cfg.nodes if t.kind == "test" and norm(t.ast) == f"{alg_p} == RABIN_64"]
     rn = p.try_fold(f.mod, ast.Name(id="RABIN_64", ctx=ast.Load()))
-    ok = len(rab) == 1 and rn == spec.RABIN_NAME and all(cfg.edge_dominates(rab[0], "true", cfg.node_of(h)) for h in hashing if norm(h.func) == "rabin_fingerprint")
+    rcalls = [h for h in hashing if norm(h.func) == "rabin_fingerprint"]
+    ok = bool(rcalls) and rn == spec.RABIN_NAME and all(eq_texts(alg_p, "RABIN_64") & true_facts(cfg, cfg.node_of(h)) for h in rcalls) and all(ne_texts(alg_p, "RABIN_64") & true_facts(cfg, cfg.node_of(h)) for h in hashing if h not in rcalls)
     ctx.check("C14.R2", "CRC-64-AVRO dispatches to the Rabin routine", ok, f.where(), f"fingerprint: RABIN_64={rn!r}", "the Rabin fingerprint is not selected by the name CRC-64-AVRO")
 
     ctx.rule("C14.R3", "the bytes hashed are the UTF-8 encoding of the text, for both routines", floor=2)
